@@ -411,6 +411,18 @@ def g_collection(ctx, rng, i):
     if kind in (8, 9):
         _try(args[0].is_coplanar, args[1])
     _method_form(g, fn, args)
+    if kind == 1:
+        # the module constants as operands: the line at infinity (any representative, alone or inside a collection) against geometer.infty
+        c_ = int(gen.pick(rng, [1, -2, 5]))
+        inf_like = g.Line(np.array([0, 0, c_]))
+        for a_, b_ in ((inf_like, g.infty), (g.infty, inf_like), (g.infty, g.infty),
+                       (g.LineCollection(np.array([[1, 2, 3], [0, 0, c_], [2, 0, 1]])), g.infty), (g.infty, g.LineCollection(np.array([[0, 0, 1], [1, 0, 1]])))):
+            _try(g.meet, a_, b_)
+            _try(a_.meet, b_)
+    if kind == 5:
+        pl = g.Plane(np.array([0, 0, 0, int(gen.pick(rng, [1, -3]))]))
+        for a_, b_ in ((pl, g.infty_plane), (g.infty_plane, pl), (g.PlaneCollection(np.array([[1, 0, 2, 3], [0, 0, 0, 2]])), g.infty_plane)):
+            _try(g.meet, a_, b_)
 
 
 def g_large(ctx, rng, i):
